@@ -218,15 +218,49 @@ Record rt_out := mkOut {
   o_res : result; o_st : bstate; o_script : list beh; o_time : Z; o_trace : list event
 }.
 
-(* one attempt against the server: what it receives, what comes back and when *)
+Definition cancelled_before (cn : cancel) (x : Z) : bool :=
+  match cn with Some (tc, _) => tc <? x | None => false end.
+Definition cancel_outcome (cn : cancel) : outcome :=
+  match cn with Some (_, dl) => ctx_outcome dl | None => OCanceled end.
+Definition cancel_clock (cn : cancel) (t : Z) : Z :=
+  match cn with Some (tc, _) => Z.max t tc | None => t end.
+
+(* one attempt against the server: what it receives, what comes back and when.
+   A context that ends while the server is busy makes the base transport return
+   the context's error at that instant. *)
 Definition serve (cn : cancel) (bd : body) (st : bstate) (bh : beh) (t : Z)
   : str * bstate * outcome * Z :=
   let '(got, rest) := take_body (b_read bh) (s_rest st) in
   let st' := mkSt rest (s_calls st) in
-  match cn with
-  | Some (tc, dl) => if tc <? t + b_lat bh then (got, st', ctx_outcome dl, Z.max t tc)
-                     else (got, st', b_out bh, t + b_lat bh)
-  | None => (got, st', b_out bh, t + b_lat bh)
+  if cancelled_before cn (t + b_lat bh) then (got, st', cancel_outcome cn, cancel_clock cn t)
+  else (got, st', b_out bh, t + b_lat bh).
+
+Inductive step_res :=
+| Done (o : rt_out)
+| Next (st : bstate) (sc : list beh) (t : Z) (tr : list event).
+
+(* one iteration of the for-loop of Transport.RoundTrip *)
+Definition rt_step (p : policy) (cn : cancel) (bd : body)
+           (st : bstate) (sc : list beh) (t : Z) (attempt : Z) (tr : list event) : step_res :=
+  let '(bh, sc') := next_beh sc in
+  let '(got, st1, o, t1) := serve cn bd st bh t in
+  let tr1 := tr ++ [EAttempt t got] in
+  let stop := Done (mkOut (result_of_outcome o) st1 sc' t1 tr1) in
+  match generic_retry p attempt o with
+  | DPanic => Done (mkOut RPanic st1 sc' t1 tr1)
+  | DFail => stop            (* return nil, err *)
+  | DStop => stop            (* return resp, respErr *)
+  | DWait d =>
+    if d <? 0 then stop
+    else
+      (* rewind the body if possible (req.Body == nil: nothing to do) *)
+      match rewind bd st1 with
+      | RwNoGetBody | RwGetBodyErr => stop
+      | RwOk st2 =>
+        let tr2 := tr1 ++ [EPause t1 d] in
+        if cancelled_before cn (t1 + d) then Done (mkOut RCtx st2 sc' (cancel_clock cn t1) tr2)
+        else Next st2 sc' (t1 + d) tr2
+      end
   end.
 
 Fixpoint rt_loop (fuel : nat) (p : policy) (cn : cancel) (bd : body)
@@ -234,29 +268,9 @@ Fixpoint rt_loop (fuel : nat) (p : policy) (cn : cancel) (bd : body)
   match fuel with
   | O => mkOut RFuel st sc t tr
   | S fuel' =>
-    let '(bh, sc') := next_beh sc in
-    let '(got, st1, o, t1) := serve cn bd st bh t in
-    let tr1 := tr ++ [EAttempt t got] in
-    match generic_retry p attempt o with
-    | DPanic => mkOut RPanic st1 sc' t1 tr1
-    | DFail => mkOut (result_of_outcome o) st1 sc' t1 tr1
-    | DStop => mkOut (result_of_outcome o) st1 sc' t1 tr1
-    | DWait d =>
-      if d <? 0 then mkOut (result_of_outcome o) st1 sc' t1 tr1
-      else
-        (* rewind the body if possible *)
-        let rw := match bk bd with KNone => RwOk st1 | _ => rewind bd st1 end in
-        match rw with
-        | RwNoGetBody | RwGetBodyErr => mkOut (result_of_outcome o) st1 sc' t1 tr1
-        | RwOk st2 =>
-          let tr2 := tr1 ++ [EPause t1 d] in
-          match cn with
-          | Some (tc, _) =>
-            if tc <? t1 + d then mkOut RCtx st2 sc' (Z.max t1 tc) tr2
-            else rt_loop fuel' p cn bd st2 sc' (t1 + d) (attempt + 1) tr2
-          | None => rt_loop fuel' p cn bd st2 sc' (t1 + d) (attempt + 1) tr2
-          end
-        end
+    match rt_step p cn bd st sc t attempt tr with
+    | Done o => o
+    | Next st' sc' t' tr' => rt_loop fuel' p cn bd st' sc' t' (attempt + 1) tr'
     end
   end.
 
@@ -274,21 +288,21 @@ Definition recognised (ch : N) : bool := ((ch =? 1) || (ch =? 2))%N.
 
 Record auth_out := mkAuth { a_res : result; a_first : list event; a_second : list event; a_time : Z }.
 
+(* a 401 answer carrying a Basic or Bearer challenge *)
+Definition challenged (r : result) : bool :=
+  match r with RResp c ch => (c =? 401) && recognised ch | _ => false end.
+
 Definition auth_do (p : policy) (cn : cancel) (bd : body) (sc : list beh) : auth_out :=
   let o1 := round_trip p cn bd (init_state bd) sc 0 in
-  match o_res o1 with
-  | RResp 401 ch =>
-    if recognised ch then
-      match rewind bd (o_st o1) with
-      | RwNoGetBody => mkAuth RNotRewindable (o_trace o1) [] (o_time o1)
-      | RwGetBodyErr => mkAuth RGetBodyFailed (o_trace o1) [] (o_time o1)
-      | RwOk st2 =>
-        let o2 := round_trip p cn bd st2 (o_script o1) (o_time o1) in
-        mkAuth (o_res o2) (o_trace o1) (o_trace o2) (o_time o2)
-      end
-    else mkAuth (o_res o1) (o_trace o1) [] (o_time o1)
-  | _ => mkAuth (o_res o1) (o_trace o1) [] (o_time o1)
-  end.
+  if challenged (o_res o1) then
+    match rewind bd (o_st o1) with
+    | RwNoGetBody => mkAuth RNotRewindable (o_trace o1) [] (o_time o1)
+    | RwGetBodyErr => mkAuth RGetBodyFailed (o_trace o1) [] (o_time o1)
+    | RwOk st2 =>
+      let o2 := round_trip p cn bd st2 (o_script o1) (o_time o1) in
+      mkAuth (o_res o2) (o_trace o1) (o_trace o2) (o_time o2)
+    end
+  else mkAuth (o_res o1) (o_trace o1) [] (o_time o1).
 
 (* manifestStore.push: an *auth.Client and a body without GetBody => the content is
    buffered in memory and GetBody installed *)
